@@ -103,3 +103,31 @@ Definition getctype_py (c : ctype) (replace_with : str) : str :=
     else if nonempty x && negb (first_in x py_nospace) then py_space ++ x
     else x in
   getcname c x'.
+
+(* ---- the Python type objects' own copy of the same logic: model.BaseTypeByIdentity.get_c_name and
+   model.qualify (src/cffi/model.py:12, 29), literals from Gen.v.
+
+       result = self.c_name_with_marker                    (`marked`: the name with one gc_marker in it)
+       replace_with = replace_with.strip()
+       if replace_with:
+           if replace_with.startswith(gc_star) and gc_probe in result: replace_with = gc_lparen % replace_with % gc_rparen
+           elif replace_with[0] not in gc_nospace:                     replace_with = gc_space + replace_with
+       replace_with = qualify(quals, replace_with)
+       result = result.replace(gc_marker, replace_with) *)
+Definition replace_char (s : str) (c : N) (r : str) : str :=
+  flat_map (fun ch => if N.eqb ch c then r else [ch]) s.
+
+(* if quals & FLAG: replace_with = TEXT + replace_with.lstrip()   -- one `if` per table row, in order *)
+Definition qualify (quals : N) (x : str) : str :=
+  fold_left (fun acc row => if N.eqb (N.land quals (fst row)) 0 then acc else snd row ++ lstrip acc)
+            py_qualify_table x.
+
+Definition get_c_name_py (marked : str) (replace_with : str) (quals : N) : str :=
+  let x := strip replace_with in
+  let x1 :=
+    if nonempty x then
+      if is_prefix gc_star x && contains gc_probe marked then gc_lparen ++ x ++ gc_rparen
+      else if negb (first_in x gc_nospace) then gc_space ++ x
+      else x
+    else x in
+  replace_char marked (hd 0%N gc_marker) (qualify quals x1).
